@@ -28,6 +28,11 @@ RULE = ("random nested directory graphs (as C21: mutable SDMF/MDMF directories w
         "files) that must be refused and change nothing; every packed rwcapdata field is recomputed independently "
         "(salt = H(rw_uri) per child, key = H(salt, parent writekey), AES-CTR, HMAC) and an adversary holding the read "
         "cap, the packed bytes and one child's write cap tries to recover its siblings' (shared salt / key-stream xor); "
+        "plus a family of directories (SDMF and MDMF, the target at depth 2..4) into which a lone unprefixed unknown-format "
+        "cap is offered in the write slot (set_uri, set_children, create_node_from_uri+set_node, create_subdirectory) "
+        "and into which a newer client's write-cap-only entry is written raw and then re-packed (set_metadata_for, "
+        "move_child_to, copy via initial_children, sibling edit): nothing a holder of just the root read cap can read "
+        "(decrypted contents of every directory, caps and metadata exposed by read-only nodes) may contain that cap; "
         "non-trivial = the directory has a child linked by write cap / "
         "the walk reaches at least 2 nodes")
 TRUSTED = ["lean/Tahoe/Dir/Authority.lean: term algebra and derivation rules chosen by hand to mirror _encrypt_rw_uri",
@@ -279,16 +284,125 @@ def one_case(ctx, W, case, lines, impls, cases):
         del held
 
 
+# ------------------------------------------------------------------ caps supplied only as (possible) write authority
+
+def readcap_view(rt, client, root_ro):
+    """everything a holder of just the root READ cap can obtain: the decrypted contents of every directory it
+    reaches, and every cap string / metadata the read-only nodes expose -> [(where, bytes)]"""
+    from allmydata.interfaces import IDirectoryNode
+    blobs, seen = [], set()
+
+    def visit(node, path):
+        if node.get_readonly_uri() in seen or len(path) > 8:
+            return
+        seen.add(node.get_readonly_uri())
+        if node.is_mutable():
+            blobs.append(("plaintext of /" + "/".join(path), rt.wait(node._node.download_best_version())))
+        for name, (child, md) in sorted(rt.wait(node.list()).items()):
+            for what, val in (("get_uri", child.get_uri()), ("get_readonly_uri", child.get_readonly_uri()),
+                              ("get_write_uri", child.get_write_uri())):
+                if val:
+                    blobs.append(("%s of /%s" % (what, "/".join(path + [name])), val))
+            blobs.append(("metadata of /" + "/".join(path + [name]), json.dumps(md, sort_keys=True, default=repr).encode()))
+            if IDirectoryNode.providedBy(child):
+                visit(child, path + [name])
+    visit(client.create_node_from_uri(None, root_ro), [])
+    return blobs
+
+
+LONE_CORPUS = [{"lone": True, "mdmf": False, "depth": 2, "token": "c0"}, {"lone": True, "mdmf": True, "depth": 3, "token": "c1"}]
+
+
+def lone_case(ctx, W, case):
+    """A cap of unknown format offered ONLY in the write slot (no read cap, no ro./imm. prefix) is possible write
+    authority.  Whatever the code does with it — refuse it (upstream), or link it —, nothing a holder of just the
+    directory's read cap can read may contain it."""
+    from allmydata.interfaces import MDMF_VERSION, SDMF_VERSION
+    from allmydata.mutable.publish import MutableData
+    from allmydata.dirnode import _encrypt_rw_uri
+    rt, writer, stranger = W["rt"], W["c"], W["c2"]
+    fmt = MDMF_VERSION if case["mdmf"] else SDMF_VERSION
+    dirs = [rt.wait(writer.create_dirnode(version=fmt)) for _ in range(case["depth"] + 1)]
+    for a, b in zip(dirs, dirs[1:]):
+        rt.wait(a.set_uri("sub", b.get_uri(), b.get_readonly_uri()))
+    root, T = dirs[0], dirs[-1]
+    rt.wait(T.set_uri("sibling", None, b"URI:LIT:obuw63q"))
+    lit = b"URI:LIT:nfxgk"
+    tok = case["token"].encode()
+
+    def attempt(f):
+        try:
+            rt.wait(f())
+            return "accepted"
+        except Exception as e:  # noqa
+            return type(e).__name__
+
+    def judge(route, secret, outcome):
+        ok, blobs = guarded(ctx, case, "reading the tree with the root read cap (%s)" % route,
+                            lambda: readcap_view(rt, stranger, root.get_readonly_uri()))
+        if not ok:
+            return
+        for where, blob in blobs:
+            if secret in blob:
+                ctx.violation("a cap supplied only in the write slot is visible to a holder of the directory read cap",
+                              case, "writecap-visible-to-readcap-holder:" + route,
+                              {"where": where, "outcome": outcome, "format": "MDMF" if case["mdmf"] else "SDMF",
+                               "depth": case["depth"]})
+                break
+        ctx.case(("lone", route, case["mdmf"], case["depth"], outcome.split(",")[0]))
+        ctx.count("lone:%s:%s" % (route, outcome))
+
+    # ---- routes 1: offered through the API
+    s1 = b"lafs://future-secret-set-uri-" + tok
+    judge("set_uri", s1, attempt(lambda: T.set_uri("lone1", s1)))
+    s2 = b"lafs://future-secret-set-children-" + tok
+    judge("set_children", s2, attempt(lambda: T.set_children({"lone2": (s2, None), "other": (None, lit)})))
+    s3 = b"lafs://future-secret-set-node-" + tok
+    judge("set_node", s3, attempt(lambda: T.set_node("lone3", writer.create_node_from_uri(s3))))
+    s3b = b"lafs://future-secret-subdir-" + tok
+    judge("create_subdirectory", s3b,
+          attempt(lambda: T.create_subdirectory("lone4", initial_children={"x": (writer.create_node_from_uri(s3b), {})})))
+    # ---- route 2: an entry stored by a newer client with only an encrypted rw_uri, then re-packed by this one
+    s4 = b"lafs://future-secret-raw-" + tok
+
+    def raw_write():
+        old = rt.wait(T._node.download_best_version())
+        entry = c19.frame([("newer".encode(), b"", _encrypt_rw_uri(T._node.get_writekey(), s4), b"{}")])
+        return T._node.overwrite(MutableData(old + entry))
+    out = [attempt(raw_write)]
+    judge("raw-entry", s4, out[0])
+    out.append(attempt(lambda: T.list()))
+    out.append(attempt(lambda: T.set_metadata_for("newer", {"touched": 1})))
+    judge("raw-entry+set_metadata_for", s4, ",".join(out))
+    out.append(attempt(lambda: T.move_child_to("newer", root, "moved")))
+    judge("raw-entry+move_child_to", s4, ",".join(out))
+
+    def copy():
+        d = writer.create_dirnode(initial_children=rt.wait(T.list()))
+        d.addCallback(lambda nd: root.set_node("copy", nd))
+        return d
+    out.append(attempt(copy))
+    judge("raw-entry+copy", s4, ",".join(out))
+    out.append(attempt(lambda: T.set_uri("sibling2", None, lit)))
+    judge("raw-entry+sibling-edit", s4, ",".join(out))
+
+
 def run(ctx):
     common.setup_impl_path()
     import grid
+    lone = []
     if ctx.replay:
         c = ctx.replay["case"]
-        cases_in = [c["case"] if "case" in c else c]
+        c = c["case"] if "case" in c else c
+        cases_in, lone = ([], [c]) if c.get("lone") else ([c], [])
     else:
         cases_in = [json.loads(json.dumps(c)) for c in c21.CORPUS]
         for i in range(ctx.budget(22, 250)):
             cases_in.append(c21.gen_graph(ctx.rng, ctx.rng.choice([3, 6, 10, 16, 25])))
+        lone = [json.loads(json.dumps(c)) for c in LONE_CORPUS]
+        for i in range(ctx.budget(4, 60)):
+            lone.append({"lone": True, "mdmf": ctx.rng.random() < 0.5, "depth": ctx.rng.choice([2, 2, 3, 4]),
+                         "token": "%08x" % ctx.rng.randrange(1 << 32)})
     lines, impls, cases = [], [], []
     with grid.Runtime(seed=ctx.seed, policy="random") as rt:
         g = grid.Grid(grid.fresh_dir("c18"), rt, num_servers=3, num_clients=2, k=1, happy=1, n=2)
@@ -296,6 +410,8 @@ def run(ctx):
             W = {"rt": rt, "c": g.clients[0], "c2": g.clients[1]}
             for case in cases_in:
                 one_case(ctx, W, case, lines, impls, cases)
+            for case in lone:
+                guarded(ctx, case, "lone write-slot cap family", lambda: lone_case(ctx, W, case))
         finally:
             g.close()
     model = ctx.model(lines)
